@@ -14,6 +14,7 @@ A pipeline is a list of element specs (JSON-able):
     ["f", name]      a user callable that wraps each value:  x -> (name, x)        (one to one, lazy)
     ["slice", m]     lena.flow.Slice(m)                       xs -> xs[:m]
     ["acc", name]    a user fill/compute accumulator          xs -> [list(xs)]     (one value)
+    ["mut", name]    a user callable that appends its name to context["seen"] of the value in place
     ["cache", name]  lena.flow.Cache(name + ".pkl")           xs -> xs
     ["raise", k]     (only as the last element of one run) a callable that returns its argument and
                      raises Boom on its call number k
@@ -37,6 +38,8 @@ the elements behind that cache make of the stored values, the source is not pull
 that cache is called. Served by the source: the output is what the elements make of the source's values
 (cache = identity).
 """
+
+import copy  # noqa: E402
 
 FALSY_POOL = [0, None, "", [], {}, False, 0.0, ()]
 
@@ -69,6 +72,15 @@ def apply_spec(spec, xs):
         return [(spec[1], x) for x in xs]
     if t == "slice":
         return xs[:spec[1]]
+    if t == "mut":
+        # a user callable that notes itself in the context of the value, IN PLACE (flows of
+        # (data, context) pairs only); as a function of values: the note is appended
+        out = []
+        for x in xs:
+            ctx = copy.deepcopy(x[1])
+            ctx.setdefault("seen", []).append(spec[1])
+            out.append((x[0], ctx))
+        return out
     if t == "acc":
         return [list(xs)]
     if t in ("cache", "raise"):
